@@ -175,3 +175,37 @@ Fixpoint mism_from (i : nat) (cs : list case) : list (nat * nat) :=
                 end
   end.
 Definition mismatches (cs : list case) : list (nat * nat) := mism_from 0 cs.
+
+(* ---------------------------------------------------------------- statement level (appended)
+   CaseQ: one SELECT statement with ORDER BY and / or GROUP BY through Optimizer.BuildPlan, judged
+   and compared with the composed twin Model/SelectPlans.v by Corr/C03Stmt.v (codes there).
+   The case files define their list with the type [xcase]; the cases above are embedded. *)
+From KV Require Import Corr.C03Stmt.
+
+Inductive xcase :=
+  | XBase (c : case)
+  | CaseQ (q : qcase).
+(* the embedded constructors, under which the case files see CaseE / CaseS / CaseL *)
+Definition XCaseE (e : expr) (rows : list (bytes * bytes * obs)) (b : bobs) : xcase := XBase (CaseE e rows b).
+Definition XCaseS (smodel : bool) (wh : expr) (fields : option (list expr)) (B : nat)
+           (store : list (bytes * bytes)) (rowres batchres : sobs) (blens : list nat) : xcase :=
+  XBase (CaseS smodel wh fields B store rowres batchres blens).
+Definition XCaseL (wh : expr) (fields : option (list expr)) (B start count : nat)
+           (store : list (bytes * bytes)) (rowres batchres : sobs) : xcase :=
+  XBase (CaseL wh fields B start count store rowres batchres).
+
+Definition xcheck_case (c : xcase) : nat :=
+  match c with
+  | XBase b => check_case b
+  | CaseQ q => check_q q
+  end.
+
+Fixpoint xmism_from (i : nat) (cs : list xcase) : list (nat * nat) :=
+  match cs with
+  | [] => []
+  | c :: cs' => match xcheck_case c with
+                | 0 => xmism_from (S i) cs'
+                | k => (i, k) :: xmism_from (S i) cs'
+                end
+  end.
+Definition xmismatches (cs : list xcase) : list (nat * nat) := xmism_from 0 cs.
